@@ -227,7 +227,7 @@ package stream
 //@ ensures.fresh[C02] fresh(result0) && fresh(result1)
 //@ ensures.resume[C02,C06] !latest ==> forall vb uint16 :: has(dump, vb) ==> result0[vb] != nil && result0[vb].SnapshotMarker != nil && result0[vb].SeqNo == dump[vb].Checkpoint.SeqNo && result0[vb].VbUUID == dump[vb].Checkpoint.VbUUID && result0[vb].StartSeqNo == dump[vb].Checkpoint.Snapshot.StartSeqNo && result0[vb].EndSeqNo == dump[vb].Checkpoint.Snapshot.EndSeqNo
 //@ ensures.end[C02] !latest ==> forall vb uint16 :: has(dump, vb) ==> result0[vb].LatestSeqNo == ite(finite, ite(has(seqs, vb), seqs[vb], 0), 0xffffffffffffffff)
-//@ ensures.notahead[C15] !latest ==> forall vb uint16 :: has(dump, vb) ==> dump[vb].Checkpoint.SeqNo <= ite(has(seqs, vb), seqs[vb], 0)
+//@ ensures.notahead[C15,C06] !latest ==> forall vb uint16 :: has(dump, vb) ==> dump[vb].Checkpoint.SeqNo <= ite(has(seqs, vb), seqs[vb], 0)
 //@ ensures.clean[C05] !latest ==> result2 == false && forall vb uint16 :: !has(result1, vb)
 //@ ensures.latest[C02,C06] latest ==> forall vb uint16 :: has(dump, vb) ==> result0[vb] != nil && result0[vb].SnapshotMarker != nil && result0[vb].SeqNo == ite(has(seqs, vb), seqs[vb], 0) && result0[vb].StartSeqNo == result0[vb].SeqNo && result0[vb].EndSeqNo == result0[vb].SeqNo && result0[vb].LatestSeqNo == ite(finite, result0[vb].SeqNo, 0xffffffffffffffff)
 //@ ensures.latestbranch[C02,C06] latest ==> forall vb uint16 :: has(dump, vb) ==> old(ncalls(couchbase.Client.GetFailOverLogs)) <= lastcall(couchbase.Client.GetFailOverLogs, vbID, vb) && lastcall(couchbase.Client.GetFailOverLogs, vbID, vb) < ncalls(couchbase.Client.GetFailOverLogs) && argat(couchbase.Client.GetFailOverLogs, lastcall(couchbase.Client.GetFailOverLogs, vbID, vb), vbID) == vb && retat(couchbase.Client.GetFailOverLogs, lastcall(couchbase.Client.GetFailOverLogs, vbID, vb), 1) == nil && result0[vb].VbUUID == retat(couchbase.Client.GetFailOverLogs, lastcall(couchbase.Client.GetFailOverLogs, vbID, vb), 0)[0].VbUUID
@@ -253,7 +253,7 @@ package stream
 //@ modifies calls(couchbase.Client.OpenStream)
 
 //@ func (*stream).reopenStream
-//@ props C11 C12 C15
+//@ props C11 C12 C15 C16
 //@ requires s != nil && s.offsets != nil && s.client != nil
 //@ let K = "stream.(*stream).openStream"
 //@ let n = dcalls("stream.(*stream).openStream")
@@ -267,7 +267,7 @@ package stream
 //@ modifies calls("stream.(*stream).openStream"), calls(couchbase.Client.OpenStream)
 
 //@ func (*stream).listenEnd
-//@ props C12 C11
+//@ props C12 C11 C01 C05 C16
 //@ requires s != nil && s.finishStreamWithEndEventCh != nil && atomicval(s.activeStreams) > -2147483648 && atomicval(s.activeStreams) <= 2147483647
 //@ requires s.streamEndNotSupportedData != nil ==> s.streamEndNotSupportedData.queue != s.finishStreamWithEndEventCh
 //@ let err = endContext.Err
@@ -355,11 +355,11 @@ package stream
 //@ requires s.open ==> s.observers != nil && s.offsets != nil && s.client != nil && (s.config.RollbackMitigation.Disabled || s.rollbackMitigation != nil) && (forall vb uint16 :: has(s.observers, vb) ==> s.observers[vb] != nil)
 //@ let debounce = old(s.balancing && s.rebalanceTimer != nil)
 //@ let delay = old(s.config.Dcp.Group.Membership.RebalanceDelay)
-//@ ensures.debounce_quiet[C11] debounce ==> dcalls("stream.(*stream).Close") == 0 && calls(models.EventHandler.BeforeRebalanceStart) == 0 && calls(models.EventHandler.AfterRebalanceStart) == 0 && calls(models.EventHandler.BeforeStreamStop) == 0 && s.balancing
-//@ ensures.debounce_rearm[C11] debounce ==> calls("time.(*Timer).Stop") == 1 && arg("time.(*Timer).Stop", 0, 0) == old(s.rebalanceTimer) && (ret("time.(*Timer).Stop", 0) ==> calls("time.(*Timer).Reset") == 1 && arg("time.(*Timer).Reset", 0, d) == delay && calls(time.AfterFunc) == 0 && s.rebalanceTimer == old(s.rebalanceTimer)) && (!ret("time.(*Timer).Stop", 0) ==> calls("time.(*Timer).Reset") == 0 && calls(time.AfterFunc) == 1 && arg(time.AfterFunc, 0, d) == delay && isbound(arg(time.AfterFunc, 0, f), "stream.(*stream).Rebalance") && boundrecv(arg(time.AfterFunc, 0, f), "stream.(*stream).Rebalance") == s && s.rebalanceTimer == ret(time.AfterFunc, 0))
-//@ ensures.start_once[C11] !debounce ==> calls(models.EventHandler.BeforeRebalanceStart) == 1 && calls(models.EventHandler.AfterRebalanceStart) == 1 && dcalls("stream.(*stream).Close") == ite(old(s.balancing), 0, 1) && s.balancing && held(s.rebalanceLock)
-//@ ensures.start_close[C11] !debounce && !old(s.balancing) ==> darg("stream.(*stream).Close", 0, closeWithCancel) == false && ts(models.EventHandler.BeforeRebalanceStart, 0) < ts("stream.(*stream).Close", 0) && ts("stream.(*stream).Close", 0) < ts(models.EventHandler.AfterRebalanceStart, 0)
-//@ ensures.start_timer[C11] !debounce ==> calls(time.AfterFunc) == 1 && arg(time.AfterFunc, 0, d) == ite(s.config.Dcp.Group.Membership.Type == "dynamic", 0, delay) && isbound(arg(time.AfterFunc, 0, f), "stream.(*stream).rebalance") && boundrecv(arg(time.AfterFunc, 0, f), "stream.(*stream).rebalance") == s && s.rebalanceTimer == ret(time.AfterFunc, 0) && ts(models.EventHandler.AfterRebalanceStart, 0) < ts(time.AfterFunc, 0)
+//@ ensures.debounce_quiet[C11,C13] debounce ==> dcalls("stream.(*stream).Close") == 0 && calls(models.EventHandler.BeforeRebalanceStart) == 0 && calls(models.EventHandler.AfterRebalanceStart) == 0 && calls(models.EventHandler.BeforeStreamStop) == 0 && s.balancing
+//@ ensures.debounce_rearm[C11,C13] debounce ==> calls("time.(*Timer).Stop") == 1 && arg("time.(*Timer).Stop", 0, 0) == old(s.rebalanceTimer) && (ret("time.(*Timer).Stop", 0) ==> calls("time.(*Timer).Reset") == 1 && arg("time.(*Timer).Reset", 0, d) == delay && calls(time.AfterFunc) == 0 && s.rebalanceTimer == old(s.rebalanceTimer)) && (!ret("time.(*Timer).Stop", 0) ==> calls("time.(*Timer).Reset") == 0 && calls(time.AfterFunc) == 1 && arg(time.AfterFunc, 0, d) == delay && isbound(arg(time.AfterFunc, 0, f), "stream.(*stream).Rebalance") && boundrecv(arg(time.AfterFunc, 0, f), "stream.(*stream).Rebalance") == s && s.rebalanceTimer == ret(time.AfterFunc, 0))
+//@ ensures.start_once[C11,C13] !debounce ==> calls(models.EventHandler.BeforeRebalanceStart) == 1 && calls(models.EventHandler.AfterRebalanceStart) == 1 && dcalls("stream.(*stream).Close") == ite(old(s.balancing), 0, 1) && s.balancing && held(s.rebalanceLock)
+//@ ensures.start_close[C11,C13] !debounce && !old(s.balancing) ==> darg("stream.(*stream).Close", 0, closeWithCancel) == false && ts(models.EventHandler.BeforeRebalanceStart, 0) < ts("stream.(*stream).Close", 0) && ts("stream.(*stream).Close", 0) < ts(models.EventHandler.AfterRebalanceStart, 0)
+//@ ensures.start_timer[C11,C13] !debounce ==> calls(time.AfterFunc) == 1 && arg(time.AfterFunc, 0, d) == ite(s.config.Dcp.Group.Membership.Type == "dynamic", 0, delay) && isbound(arg(time.AfterFunc, 0, f), "stream.(*stream).rebalance") && boundrecv(arg(time.AfterFunc, 0, f), "stream.(*stream).rebalance") == s && s.rebalanceTimer == ret(time.AfterFunc, 0) && ts(models.EventHandler.AfterRebalanceStart, 0) < ts(time.AfterFunc, 0)
 //@ modifies s.balancing, s.rebalanceTimer, mutex(s.rebalanceLock), s.closeWithCancel, s.observers, s.offsets, s.dirtyOffsets, s.open, chan(s.finishStreamWithCloseCh), calls(models.EventHandler.BeforeRebalanceStart), calls(models.EventHandler.AfterRebalanceStart), calls(models.EventHandler.BeforeStreamStop), calls(models.EventHandler.AfterStreamStop), calls("stream.(*stream).Close"), calls("stream.(*stream).closeAllStreams"), calls(couchbase.Client.CloseStream), calls("go:stream.(*stream).closeAllStreams$1$1"), calls(couchbase.Observer.Close), calls(couchbase.Observer.CloseEnd), calls(couchbase.RollbackMitigation.Stop), calls(stream.Checkpoint.StopSchedule), calls("time.(*Timer).Stop"), calls("time.(*Timer).Reset"), calls(time.AfterFunc), calls("wrapper.(*ConcurrentSwissMap).Range")
 
 //@ iface stream.VBucketDiscovery.Get
